@@ -297,13 +297,15 @@ def predicate0(case, obs):
     spec, st = case["spec"], case["st"]
     A = ops.dense(spec)
     n = A.shape[-1]
-    batch = list(A.shape[:-2])
     R = case["R"]
+    if case["rhs"] == "xmat":       # a rhs with MORE batch dimensions than the operator (LinearOperator.inv_quad broadcasts)
+        A = A.expand(*R.shape[:-2], n, n)
+    batch = list(A.shape[:-2])
     if "raise" in obs:
         if (case["rhs"] == "none" and not case["logdet"] and obs["raise"] == "RuntimeError"
                 and "must be specif" in obs["msg"]):
             return None          # documented: nothing was asked for
-        if case["rhs"] == "bmat" and is_guard(obs):
+        if case["rhs"] in ("bmat", "xmat") and is_guard(obs):
             return None          # explicit refusal of a rhs batch shape different from the operator's
         return ("raise:" + obs["raise"], "raised %s: %s" % (obs["raise"], obs["msg"]))
     t = 0 if R is None else (1 if R.dim() == 1 else R.shape[-1])
@@ -450,7 +452,7 @@ def failure_key(case, fail):
             "derive": leaf.get("how") if leaf["k"] == "Derived" else None,
             "opclass": "Cat" if (leaf["k"] == "Cat" or leaf.get("how") == "cat_rows") else leaf["k"],
             "route": "chol" if chol_route(case["st"], n) else "cg",
-            "rhs": "mat" if case["rhs"] == "bmat" else case["rhs"], "rhs_broadcast": case["rhs"] == "bmat",
+            "rhs": "mat" if case["rhs"] in ("bmat", "xmat") else case["rhs"], "rhs_broadcast": case["rhs"] in ("bmat", "xmat"),
             "logdet": bool(case["logdet"]), "api": case["api"],
             "batched": int(math.prod(ops.spec_batch(spec))) > 1, "fail": fail}
 
@@ -466,6 +468,8 @@ def base_of(kind, r, b, m):
         return {"k": "CDiag", "c": ops.pos(r, *b, 1), "n": m}
     if kind == "Chol":
         return {"k": "Chol", "T": ops.tri(r, b, m, False), "upper": False}
+    if kind == "CholU":
+        return {"k": "Chol", "T": ops.tri(r, b, m, True), "upper": True}
     if kind == "Kron":
         return {"k": "Kron", "fs": [ops.spd(r, b, 2), ops.spd(r, b, 2)]}
     if kind == "Ident":
@@ -645,6 +649,52 @@ def variants_cache(quick):
     return V
 
 
+def chol_dense(T, up):
+    return T.mT @ T if up else T @ T.mT
+
+
+def variants_ori(quick):
+    """BOTH Cholesky orientations (A = L L^T, A = R^T R) through every way a batch expansion can happen: explicit
+    .expand(), implicit expansion as a factor of a Kronecker product / a summand next to a batched operand, inside Block*
+    (also expanded), under BatchRepeat; names start with the MB prefix (same cells: both routes, reduce on / off, broadcast
+    rhs, inv_quad entry point) plus a rhs with MORE batch dimensions than the operator through inv_quad"""
+    V = []
+
+    def add(name, f):
+        V.append((MB_PREFIX + "ORI " + name, f))
+    for up in (False, True):
+        u = "up" if up else "lo"
+        add("Chol n=3 b=[] %s" % u, lambda r, up=up: {"k": "Chol", "T": ops.tri(r, [], 3, up), "upper": up})
+        for xb, full in (([], [3]), ([2, 1], [2, 3]), ([3], [2, 3]), ([1, 3], [2, 3])):
+            add("Chol n=3 %s xb=%s->%s" % (u, xb, full), lambda r, up=up, xb=xb, full=full: {
+                "k": "Chol", "T": ops.expand_full(ops.tri(r, xb, 3, up), full, 2), "upper": up, "xb": xb})
+        # factor of a Kronecker product whose other factor is batched (KroneckerProductLinearOperator.__init__ expands)
+        for (cb, db, first) in (([], [2], True), ([], [2, 3], False), ([3], [2, 1], True)):
+            def mk(r, up=up, cb=cb, db=db, first=first):
+                full = list(torch.broadcast_shapes(torch.Size(cb), torch.Size(db)))
+                T = ops.expand_full(ops.tri(r, cb, 2, up), full, 2)
+                Dn = ops.expand_full(ops.spd(r, db, 2, shift=0.5), full, 2)
+                fs, fk, fT, fxb = [chol_dense(T, up), Dn], ["chol-up" if up else "chol-lo", "dense"], [T, None], [cb, db]
+                if not first:
+                    fs, fk, fT, fxb = fs[::-1], fk[::-1], fT[::-1], fxb[::-1]
+                return {"k": "Kron", "fs": fs, "fk": fk, "fT": fT, "fxb": fxb}
+            add("Kron chol-%s b=%s x dense b=%s first=%d" % (u, cb, db, first), mk)
+        # summand next to a batched dense operator (SumLinearOperator expands)
+        for (cb, db) in (([], [2]), ([3], [2, 3])):
+            add("Sum chol-%s b=%s + dense b=%s" % (u, cb, db), lambda r, up=up, cb=cb, db=db: {
+                "k": "SumCD", "T": ops.tri(r, cb, 3, up), "upper": up, "A": ops.spd(r, db, 3, shift=0.25)})
+    # Block* over upper-orientation Chol blocks (direct and expanded), BatchRepeat of them
+    for il in (False, True):
+        add("Block il=%d CholU ob=[2] k=2 m=2" % il, lambda r, il=il: {"k": "Block", "il": il, "base": base_of("CholU", r, [2, 2], 2)})
+        add("Block il=%d CholU xb=[2]->[3, 2] m=2" % il, lambda r, il=il: {"k": "Block", "il": il, "base": {
+            "k": "Chol", "T": ops.expand_full(ops.tri(r, [2], 2, True), [3, 2], 2), "upper": True, "xb": [2]}})
+    for (bb, rep) in (([2, 1], [1, 3]), ([2], [3, 1]), ([2, 2], [2, 3])):
+        add("Repeat CholU bb=%s rep=%s" % (bb, rep), lambda r, bb=bb, rep=rep: {"k": "Repeat", "base": base_of("CholU", r, bb, 3), "rep": rep})
+    add("Repeat CholU xb=[1, 2]->[3, 2] rep=[2, 1]", lambda r: {"k": "Repeat", "rep": [2, 1], "base": {
+        "k": "Chol", "T": ops.expand_full(ops.tri(r, [1, 2], 3, True), [3, 2], 2), "upper": True, "xb": [1, 2]}})
+    return V
+
+
 def variants(quick):
     """deterministic list of (name, builder(rng) -> spec); the seed only picks values"""
     V = []
@@ -762,7 +812,7 @@ def variants(quick):
                             return {"k": "OB", "e": e}
                     return {"k": "Dense", "A": ops.spd(r, b, m)}
                 add("OB %s b=%s m=%d" % (cls, b, m), mk)
-    return V + variants_mb(quick) + variants_het(quick) + variants_cache(quick)
+    return V + variants_mb(quick) + variants_ori(quick) + variants_het(quick) + variants_cache(quick)
 
 
 def profiles(n, quick, leaf):
@@ -880,10 +930,22 @@ def gen_cases(ctx):
             if name.startswith(PC_PREFIX):      # every entry point on the route that re-uses the cached root
                 pick += [c for c in api_cells if c[1] == "default" and c not in pick and (c[0] != "inv_quad" or c[3] == (vi % 2 == 0))]
             api_cells = pick
-        if quick and name.startswith(MB_PREFIX) and "inv_quad" in apis and leaf["k"] != "Ident":
+        if quick and name.startswith(MB_PREFIX) and "inv_quad" in apis and leaf["k"] != "Ident" and max(batch + [1]) > 1:
             # LinearOperator.inv_quad documents broadcasting of the rhs batch: one broadcast call per multi-batch variant
             api_cells.append(("inv_quad-b", "default" if vi % 2 else "mcs0", {} if vi % 2 else {"mcs": 0, "nts": 2}, vi % 4 < 2))
+        if name.startswith(MB_PREFIX) and "inv_quad" in apis and leaf["k"] != "Ident" and (not quick or "ORI" in name or vi % 3 == 0):
+            api_cells.append(("inv_quad-x", "default" if vi % 2 == 0 else "mcs0", {} if vi % 2 == 0 else {"mcs": 0, "nts": 2}, vi % 4 >= 2))
+            if "ORI" in name:      # both reduce settings and both routes for the orientation family
+                api_cells.append(("inv_quad-x", "mcs0" if vi % 2 == 0 else "default", {"mcs": 0, "nts": 2} if vi % 2 == 0 else {}, vi % 4 < 2))
+                api_cells += [c for c in (("inv_quad", "default", {}, True), ("inv_quad", "default", {}, False)) if c not in api_cells]
         for api, pname, ov, red in api_cells:
+            if api == "inv_quad-x":
+                st = dict(defaults)
+                st.update(ov)
+                cases.append({"name": name, "prof": pname, "spec": spec, "st": st, "rhs": "xmat",
+                              "R": ops.rnd(rng, 3, *batch, n, 2), "logdet": False, "reduce": red, "api": "inv_quad",
+                              "tseed": rng.getrandbits(31), "warm": False})
+                continue
             st = dict(defaults)
             st.update(ov)
             bc = api == "inv_quad-b" or (not quick and api == "inv_quad" and max(batch + [1]) > 1 and not red
@@ -964,6 +1026,8 @@ def model_comparable(case, obs):
     n = ops.spec_size(spec_leaf(case["spec"]))
     if case["rhs"] == "bmat" and is_guard(obs):
         return None          # a refused broadcast rhs: nothing to compare (the model expands the rhs, by meaning)
+    if case["rhs"] == "xmat":
+        return None          # output batch larger than the operator's: direct predicate only
     if isinstance(obs.get("croot"), str):
         return None          # an UPPER triangular cached root (not modelled; does not occur in the grid)
     if "raise" in obs:
